@@ -5,6 +5,7 @@ open BinNums
 open PrimModel
 open Tl1Model
 open RegModel
+open RegAccModel
 open Schema_io
 
 let schema = load_schema Sys.argv.(1)
@@ -15,7 +16,9 @@ let string_of_bytes (b : coq_N list) : string =
   String.concat "" (List.map (fun c -> String.make 1 (Char.chr (int_of_n c))) b)
 let unhexname s = bytes_of_hex s
 
-(* metadata file: "anns <hex>*" and "meta <id> <namehex> <top> <fun> <maybe> <origin2> <tl2> <utag> <annhex>*" *)
+let af_info : (int * int, bool * coq_N option * bool) Hashtbl.t = Hashtbl.create 64
+
+(* metadata file: "af <tid> <field> <isbit> <tl2bit|-> <omitted>", "anns <hex>*" and "meta <id> <namehex> <top> <fun> <maybe> <origin2> <tl2> <utag> <annhex>*" *)
 let (all_anns, metas) =
   if Array.length Sys.argv < 3 then ([], []) else begin
     let ic = open_in Sys.argv.(2) in
@@ -27,6 +30,9 @@ let (all_anns, metas) =
            ms := { m_name = unhexname name; m_top = (top = "1"); m_fun = (fn = "1"); m_maybe = (mb = "1");
                    m_origin2 = (o2 = "1"); m_tl2 = (tl2 = "1"); m_utag = n_of_dec utag;
                    m_anns = List.map unhexname al } :: !ms
+       | ["af"; tid; i; isbit; tb; om] ->
+           Hashtbl.replace af_info (int_of_string tid, int_of_string i)
+             (isbit = "1", (if tb = "-" then None else Some (n_of_dec tb)), om = "1")
        | [] -> ()
        | l -> failwith ("bad meta line " ^ String.concat " " l)
      done with End_of_file -> ());
@@ -73,8 +79,77 @@ let show_item (it : item) : string =
     (if it.it_fun then fresh_name it else "none") (fresh_name it) factag
     (if it.it_fun then fresh_name it else "none")
 
+(* ---- C43: accessors of one struct *)
+let afs_of (tid : int) : (coq_N * afield list) option =
+  match List.nth_opt schema tid with
+  | Some (TStruct (tag, fds)) ->
+      Some (tag, List.mapi (fun i fd ->
+        let (b, t, o) = (try Hashtbl.find af_info (tid, i) with Not_found -> (false, None, false)) in
+        { af_field = fd; af_isbit = b; af_tl2bit = t; af_omitted = o }) fds)
+  | _ -> None
+
+let rec take n l = if n = 0 then ([], l) else match l with x :: r -> let (a, b) = take (n - 1) r in (x :: a, b) | [] -> failwith "take"
+
+let acc_codes afs = String.concat "," (List.map (fun af ->
+  if has_acc af then (if af.af_isbit then "S-I" else "SCI") else "---") afs)
+
+let observe tag afs (st : ostate * coq_N list) : string =
+  let (o, ps) = st in
+  let idx = List.mapi (fun i af -> (i, af)) afs in
+  let accs = List.filter (fun (_, af) -> has_acc af) idx in
+  let bits f l = if l = [] then "-" else String.concat "" (List.map (fun (i, af) -> if f i af then "1" else "0") l) in
+  let is = bits (fun i _ -> acc_isset afs (nat_of_int i) st) accs in
+  let js = bits (fun i _ -> json_present afs (nat_of_int i) st) accs in
+  let t2 = bits (fun _ af -> match af.af_tl2bit with Some b -> BinNat.N.testbit o.o_tl2 b | None -> false)
+             (List.filter (fun (_, af) -> af.af_tl2bit <> None) accs) in
+  let t1 = (match enc_obj false schema tag true ps afs o with Some b -> hex_of_bytes b | None -> "err") in
+  Printf.sprintf "is=%s t1=%s js=%s t2=%s" is t1 js t2
+
+let run_acc tid ps psd steps : string =
+  match afs_of tid with
+  | None -> "not-a-struct"
+  | Some (tag, afs) ->
+      let t = nat_of_int tid in
+      let dec pp h =
+        let b = bytes_of_hex h in
+        (match dec1 (fuel_for b) false schema t true pp b with
+         | Some (Ok (VStruct fs, _)) -> Some fs
+         | _ -> None) in
+      let out = Buffer.create 256 in
+      Buffer.add_string out ("acc=" ^ acc_codes afs);
+      let st = ref (fresh_obj afs, ps) in
+      let failed = ref None in
+      List.iter (fun step ->
+        if !failed = None then begin
+          (match String.split_on_char ':' step with
+           | ["fresh"] -> st := (fresh_obj afs, ps)
+           | ["read"; h] ->
+               (match dec ps h with Some fs -> st := (of_wire afs fs, ps) | None -> failed := Some "read-failed")
+           | ["set"; i; ext; h] ->
+               (match dec psd h with
+                | Some fs ->
+                    (match List.nth_opt fs (int_of_string i) with
+                     | Some (Some x) -> st := acc_set afs (nat_of_int (int_of_string i)) x (ext = "1") !st
+                     | _ -> failed := Some "donor-absent")
+                | None -> failed := Some "donor-read-failed")
+           | ["setb"; i; v; ext] -> st := acc_setbit afs (nat_of_int (int_of_string i)) (v = "1") (ext = "1") !st
+           | ["clear"; i; ext] -> st := acc_clear afs (nat_of_int (int_of_string i)) (ext = "1") !st
+           | _ -> failed := Some ("bad-step:" ^ step));
+          (match !failed with
+           | None -> Buffer.add_string out (" | " ^ observe tag afs !st)
+           | Some e -> Buffer.add_string out (" | " ^ e))
+        end) steps;
+      Buffer.contents out
+
 let run toks =
   match toks with
+  (* acc <tid> <path> <nps> <ps..> <psd..> <nf> <names..> | <steps..> *)
+  | "acc" :: tid :: _path :: nps :: rest ->
+      let n = int_of_string nps in
+      let (ps, rest) = take n rest in
+      let (psd, rest) = take n rest in
+      let (_, steps) = split_bar rest [] in
+      run_acc (int_of_string tid) (List.map n_of_dec ps) (List.map n_of_dec psd) steps
   | ["regcheck"] ->
       let c = Lazy.force cands in
       Printf.sprintf "ok wf=%s meta=%s anns=%s names=%s tags=%s cands=%d"
